@@ -48,7 +48,8 @@ def catalogue(K, thorough=False):
             S.BATCH_DIRECT(K), S.GRPFAN(K), S.RES_SHUT(K), S.BLOCKED_OUT(K), S.FANOUT_DELAY(K), S.BATCHGATE(K),
             S.GRPPAR(K, horizon=hg), S.SCHED_BLOCK(K),
             S.GRP_BLOCKED(K), S.GRPBATCH(K), S.EMPTYBATCH(K), S.TWOSRC(K), S.GATE_NONE(K), S.DELAY01_LONG(0),
-            S.MAINT2_SCRIPT(K)]
+            S.MAINT2_SCRIPT(K), S.GRPIN(K), S.RES3(K), S.BLOCKED_OUT_SCRIPT(K), S.BUFGATE(K),
+            S.BATCH_DIRECT(K, pattern=(2, 2, None), size=3, cap=3, sink_cycle=2)]
     return rows
 
 
@@ -158,7 +159,7 @@ def buffer_scenarios(K, thorough):
             S.MAINT(K), S.RES_SER(K), S.DELAY01(K), S.BUFBATCH(K), S.BUFBATCH(K, pattern=(3, 2), cap=4, size=2),
             S.FANOUT_DELAY(K), S.BATCH(K, size=2, cap=3, sink_cycle=2), S.BATCH_DIRECT(K, cap=3, sink_cycle=1),
             S.TWOSRC(K), S.TWOSRC(K, eps=1e-9, delay=1, horizon=4), S.DELAY01_LONG(0), S.EMPTYBATCH(K),
-            S.BUFBATCH(K, pattern=(3, 3, None), cap=5, size=None, sink_cycle=2)]
+            S.BUFBATCH(K, pattern=(3, 3, None), cap=5, size=None, sink_cycle=2), S.BUFGATE(K), S.EMPTYBATCH_SCRIPT(K)]
     return rows
 
 
@@ -198,7 +199,8 @@ class C06(Check):
     def jobs(self, tier):
         K = 2 if tier == 'quick' else 3
         specs = [S.MAINT(K, n=1), S.CYCLES(K), S.MAINT(K - 1), S.RES_SER(K - 1), S.CYCLES2(K - 1), S.FAN(K - 1),
-                 S.BUDGET(K - 1), S.BUDGET(K, budget=1, horizon=4), S.MAINT_SCRIPT(K), S.MAINT2_SCRIPT(K - 1)]
+                 S.BUDGET(K - 1), S.BUDGET(K, budget=1, horizon=4), S.MAINT_SCRIPT(K), S.MAINT2_SCRIPT(K - 1),
+                 S.OFFSETS2(K - 1), S.BLOCKED_OUT(K - 1)]
         jobs = _line_jobs(specs, ['cycle'], tier)
         for sp, ok in S.ser_family(n_max=1 if tier == 'quick' else 2):
             if ok:
@@ -223,7 +225,7 @@ class C08(Check):
         hg = 6 if th and K <= 1 else 4
         specs = [S.FAN(K), S.FAN3(2, horizon=8), S.GRPFAN(K), S.GRPPAR(K, horizon=hg), S.SCHED_BLOCK(K), S.RES(K),
                  S.BATCHGATE(K), S.BATCH_DIRECT(K), S.GATE(K), S.GATE_NONE(K), S.GRPBATCH(K), S.GRP_BLOCKED(K),
-                 S.FANFAIL(2), S.REENT(K), S.REENT(K, src_cycle=1), S.GRP2(K, horizon=hg),
+                 S.FANFAIL(2), S.GRPIN(K), S.REGRADE(K), S.FANGATE(2), S.REENT(K), S.REENT(K, src_cycle=1), S.GRP2(K, horizon=hg),
                  S.NEST_MID(K, horizon=hg), S.NEST_OUT(K, horizon=hg), S.BLOCK(K), S.BATCH(K), S.REWIRE(K), S.GATEGRP(K)]
         return _line_jobs(specs, ['route'], tier) + topo_jobs(['route'], tier)
 
@@ -262,7 +264,7 @@ class C13(Check):
     def jobs(self, tier):
         K = 2 if tier == 'quick' else 3
         specs = [S.MAINT(K, n=1, probes=3), S.MAINT(K - 1, probes=3), S.FAN(K - 1), S.BLOCKED_OUT(K),
-                 S.MAINT_SCRIPT(K, probes=3), S.MAINT2_SCRIPT(K - 1)]
+                 S.MAINT_SCRIPT(K, probes=3), S.MAINT2_SCRIPT(K - 1), S.VALUE0(K - 1), S.BLOCKED_OUT_SCRIPT(K - 1)]
         # the cycle monitor rides along: a part whose processing time is stretched or cut by an outage shows up there
         jobs = _line_jobs(specs, ['shutdown', 'wakeup', 'cycle'], tier)
         if tier != 'quick':
@@ -308,7 +310,8 @@ class C16(Check):
     def jobs(self, tier):
         K = 1 if tier == 'quick' else 2
         specs = [S.VALUE(K), S.VALUE(K + 1, horizon=4), S.VALUE_BATCH(K), S.MAINT(K), S.MAINT(K + 1, n=1),
-                 S.VALUE_NEST(K), S.VALUE_NEG(K), S.VALUE_NEG(K + 1, horizon=4), S.VALUE0(K), S.VALUE0(K + 1, horizon=4)]
+                 S.VALUE_NEST(K), S.VALUE_NEG(K), S.VALUE_NEG(K + 1, horizon=4), S.VALUE0(K), S.VALUE0(K + 1, horizon=4),
+                 S.VALUE_FRAC(K)]
         return _line_jobs(specs, ['value'], tier) + topo_jobs(['value'], tier)
 
 
@@ -333,7 +336,7 @@ class C17(Check):
                 for cap, kc in ((None, 0), (2, 1)):
                     specs.append(S.BATCH(K if (size in (2, None) and cap is None) or tier != 'quick' else 0,
                                          pattern=pat, size=size, cap=cap, sink_cycle=kc, horizon=5))
-        for pat in [(None, 2), (0, 2, None), (None, 0, 3), (3, 1), (2, 2, None)]:
+        for pat in [(None, 2), (0, 2, None), (None, 0, 3), (3, 1), (2, 2, None), (3, 0, None), (0, 3, 2)]:
             for size in (None, 2, 3):
                 specs.append(S.BATCH_DIRECT(K, pattern=pat, size=size, cap=4 if size else None, sink_cycle=1 if size else 0))
         specs += [S.BUFBATCH(K), S.BUFBATCH(K, pattern=(3, 2), cap=4, size=2), S.BATCHGATE(K), S.GRPBATCH(K), S.EMPTYBATCH(K)]
@@ -435,7 +438,7 @@ class C20(Check):
 
     def jobs(self, tier):
         th = tier != 'quick'
-        specs = [S.LATE(1), S.with_splits(S.LATE(1, horizon=4)),
+        specs = [S.INITCREATE(1), S.LATE(1), S.with_splits(S.LATE(1, horizon=4)),
                  S.LATE(2, horizon=4, name='2', ops=[['create', 5], ['wo', 'M1', 'x'], ['create', 3, 4], ['fail', 'M2', 0],
                                                      ['create', 0, 1, 2], ['create', 7]])]
         if th:
@@ -543,8 +546,11 @@ class C14(Check):
         # a model that has gone quiet: every terminal path is replayed through real consecutive simulate() calls
         jobs += _line_jobs([S.with_splits(S.QUIET(K)), S.with_splits(S.QUIET(0), 2)], ['splitinv', 'census', 'cycle'], tier,
                            e2q=400, e2t=2000)
+        # assets created between the runs == the same assets created from an event at the split time
+        jobs += _line_jobs([S.with_splits(S.LATE(1, horizon=3, creates=[[0, 1, 2], [6], [7], [10, 11]], name='c14'))],
+                           ['splitinv', 'census', 'schedule', 'sensors', 'lifecycle'], tier)
         seeds = list(range(8 if not th else 24))
-        for model in ('fan', 'merge', 'maint', 'res'):
+        for model in ('fan', 'merge', 'maint', 'res', 'group2'):
             jobs.append(repro_job(f'SEED[{model}]', 'seed', model, seeds=seeds, offsets=[0, 1, 7], horizon=8))
             jobs.append(repro_job(f'SMT[{model}]', 'smt', model, ns=[1, 2, 3, 4], max_processes=[0, 1, 2, 3, None], horizon=6))
         jobs.append(repro_job('SMT12[merge]', 'smt', 'merge', ns=[12], max_processes=[0, 2], horizon=4))
